@@ -160,6 +160,16 @@ Fixpoint copy_hist (n : nat) (dist : nat) (out : list byte) : list byte :=
   | S n' => copy_hist n' dist (nth (dist - 1) out 0 :: out)
   end.
 
+(* the same copy done in chunks of [dist] bytes (one list traversal per
+   chunk instead of one per byte); [fuel] bounds the number of chunks *)
+Fixpoint copy_chunks (fuel : nat) (n dist : nat) (out : list byte) : list byte :=
+  match fuel with
+  | O => out
+  | S f =>
+    if Nat.leb n dist then firstn n (skipn (dist - n) out) ++ out
+    else copy_chunks f (n - dist) dist (firstn dist out ++ out)
+  end.
+
 Fixpoint run {A} (p : prog A) (s : ast) : result A :=
   match p with
   | Ret a => Done a s
@@ -181,7 +191,7 @@ Fixpoint run {A} (p : prog A) (s : ast) : result A :=
   | Copy d l k =>
     if (0 <? d) && (d <=? a_len s)
     then run k (mkAst (a_in s) (a_pos s)
-                      (copy_hist (N.to_nat l) (N.to_nat d) (a_out s)) (a_len s + l))
+                      (copy_chunks (S (N.to_nat l)) (N.to_nat l) (N.to_nat d) (a_out s)) (a_len s + l))
     else Fail EPanic s
   | Hist k => run (k (a_len s)) s
   | HistB d k => run (k (if (0 <? d) && (d <=? a_len s)
@@ -192,7 +202,7 @@ Fixpoint run {A} (p : prog A) (s : ast) : result A :=
 (* what a caller sees of a whole-stream run *)
 Definition res_state {A} (r : result A) : ast :=
   match r with Done _ s => s | Fail _ s => s end.
-Definition res_out {A} (r : result A) : list byte := rev (a_out (res_state r)).
+Definition res_out {A} (r : result A) : list byte := fast_rev (a_out (res_state r)).
 Definition res_err {A} (r : result A) : option err :=
   match r with Done _ _ => None | Fail e _ => Some e end.
 Definition res_pos {A} (r : result A) : N := a_pos (res_state r).
